@@ -76,11 +76,12 @@ type C1 struct {
 	IOErr           error  // identity of the injected hard I/O error (nil: the plain sentinel); always wraps ErrSimIO
 	Endless         bool   // oversize: after the scripted bytes the sender never stops
 	Reconnect       int    // (follow-up call, network clients) before this call: 1 = Connect again without Close, 2 = Close then Connect
-	ConfOneFunc     int    // network clients built by the protocol constructors: 1 = only ParseResponseFunc given in the config (the protocol's own), 2 = only AsProtocolErrorFunc
+	ConfOneFunc     int    // network clients built by the protocol constructors: 1 = only ParseResponseFunc given in the config (the protocol's own), 2 = only AsProtocolErrorFunc, 3 = (RTU) both given, the CRC-less variants
 	ValueHooks      bool   // the hooks are a value type installed by value (zero value)
 	Marathon        int    // after the (first) call the same request is made this many more times on the same client, each answered by the same reply script
 	DeadlinePort    bool   // serial port without Flush but with SetReadDeadline
 	NilHooksOption  bool   // serial client built with WithSerialHooks(nil) when no hooks are wanted
+	ZeroNilReads    bool   // network transports: a non-blocking connection whose reads return (0, nil) when nothing has arrived
 	WrappedTimeouts bool   // network transports report read timeouts as a *net.OpError wrapping the sentinel, as real sockets do
 	Reply           []byte // bytes the transport will deliver (before any terminal fault)
 	Full            []byte // the complete well-formed reply (Reply may be a prefix or a corruption of it)
@@ -293,6 +294,8 @@ func RunC1(rc *RunCtx, sc *C1) *C1Outcome {
 	s.Tracing = rc.Tracing
 	if sc.Marathon > 0 || rc.longRun {
 		s.MaxSteps = 2000000
+	} else if sc.ZeroNilReads {
+		s.MaxSteps = 400000 // every empty poll of a non-blocking connection is a step
 	}
 	out := &C1Outcome{}
 	defer s.Activate()()
@@ -372,6 +375,9 @@ func RunC1(rc *RunCtx, sc *C1) *C1Outcome {
 		cl.WriteErrN = 3
 	case FWriteDeadlineErr:
 		cl.WDeadlineErr = fmt.Errorf("set write deadline: %w", sc.ioErr()) // what a connection that is already gone answers
+	}
+	if sc.ZeroNilReads && sc.Kind != KSerial {
+		cl.ZeroNilPoll = 20 * time.Microsecond
 	}
 	if sc.WrappedTimeouts {
 		// real transports do not hand out the bare sentinel: sockets wrap it in *net.OpError, files in *fs.PathError, and
@@ -476,6 +482,11 @@ func RunC1(rc *RunCtx, sc *C1) *C1Outcome {
 					}
 					return packet.AsRTUErrorPacket(b)
 				}
+			case 3:
+				// a config written for the generic constructor (the CRC-less RTU functions, as the library's own example
+				// of NewClient uses them) handed to the RTU constructor: an RTU client checks the CRC whatever it is given
+				conf.ParseResponseFunc = packet.ParseRTUResponse
+				conf.AsProtocolErrorFunc = packet.AsRTUErrorPacket
 			}
 			c = modbus.NewRTUClientWithConfig(conf)
 		}
